@@ -123,6 +123,12 @@ void vh_fill_interesting(vh_rng *r, uint8_t *buf, size_t n)
     }
 }
 
+uint32_t vh_wrap_len(vh_rng *r, uint32_t lo, uint32_t hi)
+{
+    uint32_t s = 1 + vh_below(r, 5), j = 1 + vh_below(r, (1u << s) - 1), k = lo + vh_below(r, hi - lo + 1);
+    return (j << (32 - s)) + k;
+}
+
 uint64_t vh_hash(const void *p, size_t n, uint64_t h)
 {
     const uint8_t *b = p;
